@@ -67,6 +67,20 @@ def setup(ctx, mods):
 def cases(rng, tier, shard, nshards):
     total = META['quick_cases'] if tier == 'quick' else META['thorough_cases']
     count = shard_count(total, shard, nshards)
+    # long curves (thousands of points) in every tier: size-dependent fast paths, budgets and buffers only show there
+    for _ in range(1 if tier == 'quick' else 3):
+        if rng.random() < 0.5:
+            pts, fam = gen.long_spiky(rng), 'long-spiky'
+        else:
+            n = int(rng.integers(4200, 9000))
+            x = np.cumsum(rng.integers(1, 4, n)).astype(float)
+            pts = np.ascontiguousarray(np.column_stack((x, np.round(rng.random(n) * 100.0, 2) + 1.0)))
+            fam = 'long-noise'
+        cfg = {s: {'t': float(pick(rng, [0.3, 0.5])), 'distance': pick(rng, DISTANCES), 'cost': pick(rng, ['rpd', 'smape', 'rmspe']),
+                   'order': pick(rng, ORDERS), 'length': int(rng.integers(10, 40))} for s in SIMPLIFIERS}
+        cfg['rdp']['t'] = float(pick(rng, [0.01, 0.05]))           # keeps most points of a noisy curve: a deep split tree
+        cfg['min_point_rdp']['tlist'] = [0.5, 0.3]
+        yield {'points': pts, 'family': fam, 'layout': 'C', 'cfg': cfg}
     for i in range(count):
         r = rng.random()
         if tier == 'thorough' and r < 0.01:
